@@ -44,6 +44,9 @@ type propCfg struct {
 func d(s string) time.Duration { x, _ := time.ParseDuration(s); return x }
 
 var props = map[string]propCfg{
+	"C07": {Level: "exploration",
+		Quick: tierCfg{Checks: 60, Shards: 8, Timeout: d("15m"), ShrinkTime: d("45s")},
+		Thor:  tierCfg{Checks: 250, Shards: 12, Timeout: d("60m"), ShrinkTime: d("180s")}},
 	"C03": {Level: "exploration",
 		Quick: tierCfg{Checks: 12, Shards: 6, Timeout: d("15m"), ShrinkTime: d("45s")},
 		Thor:  tierCfg{Checks: 150, Shards: 12, Timeout: d("60m"), ShrinkTime: d("180s")}},
